@@ -341,10 +341,10 @@ func init() {
 			bound = 4
 		}
 		for _, s := range gridS() {
-			engine.ExploreS(ctx, build(s), engine.SConfig{Bound: bound, Shard: ctx.Shard, NShards: ctx.NShards, Deadline: ctx.Deadline})
+			engine.ExploreS(ctx, build(s), engine.SConfig{BothPolicies: true, Bound: bound, Shard: ctx.Shard, NShards: ctx.NShards, Deadline: ctx.Deadline})
 		}
 		for _, sc := range pairScenarios() {
-			engine.ExploreS(ctx, sc, engine.SConfig{Bound: bound - 1, Shard: ctx.Shard, NShards: ctx.NShards, Deadline: ctx.Deadline})
+			engine.ExploreS(ctx, sc, engine.SConfig{BothPolicies: true, Bound: bound - 1, Shard: ctx.Shard, NShards: ctx.NShards, Deadline: ctx.Deadline})
 		}
 	})
 	hk.Replayers["C02"] = func(ctx *engine.Ctx, rp engine.Replay) []*engine.Finding {
